@@ -299,6 +299,7 @@ struct Ctx<'a> {
     depth: usize,
     transitions: AtomicU64,
     rejected: AtomicU64,
+    reloads: AtomicU64,
     states: DistinctCounter,
 }
 
@@ -384,13 +385,57 @@ fn run_path(ctx: &Ctx, base: &(&'static str, Vec<Cmd>), path: &[usize]) -> bool 
     let mut s = String::new();
     let _ = write!(s, "{m:?}");
     ctx.states.insert(s.as_bytes());
+    // the same observations on the state as a NEW process would load it (backup to a file,
+    // open that file): everything derived in memory while loading must agree with the model too
+    if !path.is_empty() {
+        let c = &ctx.alpha[*path.last().unwrap()];
+        let rj = || {
+            let mut v = replay_json(base.0, path, &ctx.alpha);
+            v["then"] = json!("backup to a file, open it as a new database, observe");
+            v
+        };
+        let file = RELOAD.with(|s| s.path("reload.agdb"));
+        let _ = std::fs::remove_file(&file);
+        let reloaded = catch(|| -> Result<Box<dyn DbLike>, agdb::DbError> {
+            db.backup_to(&file)?;
+            Variant::Memory.open(&file)
+        });
+        match reloaded {
+            Ok(Ok(db2)) => {
+                ctx.reloads.fetch_add(1, Ordering::Relaxed);
+                match catch(|| compare(ctx.p, db2.as_ref(), &m)) {
+                    Ok(Ok(())) => {}
+                    Ok(Err((clause, what))) => {
+                        ctx.report.violation(&format!("cmd={}|after-reload|clause={clause}", c.kind()), &format!("after `{}`, backup and reload: {what}", c.name()), rj());
+                        return false;
+                    }
+                    Err(p) => {
+                        ctx.report.violation(&format!("cmd={}|after-reload|read-panic|{}|{}", c.kind(), p.file(), p.normalised()), &format!("panic while reading the reloaded database: {} at {}", p.message, p.location), rj());
+                        return false;
+                    }
+                }
+            }
+            Ok(Err(e)) => {
+                ctx.report.violation(&format!("cmd={}|after-reload|load-fails|{}", c.kind(), engine::normalise(&e.description)), &format!("after `{}` the backup cannot be loaded: {}", c.name(), e.description), rj());
+                return false;
+            }
+            Err(p) => {
+                ctx.report.violation(&format!("cmd={}|after-reload|load-panic|{}|{}", c.kind(), p.file(), p.normalised()), &format!("panic while backing up / loading: {} at {}", p.message, p.location), rj());
+                return false;
+            }
+        }
+    }
     true
+}
+
+thread_local! {
+    static RELOAD: engine::Scratch = engine::Scratch::new("c08reload");
 }
 
 /// whether a path is extendable, judged silently (its own work item reports its violations)
 fn run_path_quiet(ctx: &Ctx, base: &(&'static str, Vec<Cmd>), path: &[usize]) -> bool {
     let silent = Report::new(&engine::Args { property: ctx.report.property.clone(), tier: ctx.report.tier, replay: None, seed: 0, extra: vec![] }, "model_checking");
-    let c2 = Ctx { p: ctx.p, report: &silent, alpha: ctx.alpha.clone(), depth: ctx.depth, transitions: AtomicU64::new(0), rejected: AtomicU64::new(0), states: DistinctCounter::default() };
+    let c2 = Ctx { p: ctx.p, report: &silent, alpha: ctx.alpha.clone(), depth: ctx.depth, transitions: AtomicU64::new(0), rejected: AtomicU64::new(0), reloads: AtomicU64::new(0), states: DistinctCounter::default() };
     run_path(&c2, base, path)
 }
 
@@ -418,7 +463,7 @@ pub fn run(args: &Args) -> i32 {
     };
     let report = Report::new(args, "model_checking");
     let depth: usize = std::env::var("VERIF_DEPTH").ok().and_then(|s| s.parse().ok()).unwrap_or(args.tier.pick(dq, dt));
-    let ctx = Ctx { p, report: &report, alpha: alphabet(p), depth, transitions: AtomicU64::new(0), rejected: AtomicU64::new(0), states: DistinctCounter::default() };
+    let ctx = Ctx { p, report: &report, alpha: alphabet(p), depth, transitions: AtomicU64::new(0), rejected: AtomicU64::new(0), reloads: AtomicU64::new(0), states: DistinctCounter::default() };
     let bs = bases(p);
 
     if let Some(path) = &args.replay {
@@ -471,6 +516,7 @@ pub fn run(args: &Args) -> i32 {
         r.set("transitions", json!(ctx.transitions.load(Ordering::SeqCst)));
         r.set("traces_validated_against_impl", json!(ctx.transitions.load(Ordering::SeqCst)));
         r.set("commands_rejected_by_both", json!(ctx.rejected.load(Ordering::SeqCst)));
+        r.set("sequences_also_observed_after_backup_and_reload", json!(ctx.reloads.load(Ordering::SeqCst)));
     };
     if engine::run_items_isolated(args, &report, items.len(), &run_item, &counts, &|n| ("sequence-prefix".to_string(), format!("sequences starting with {:?}", items[n].1.iter().map(|i| ctx.alpha[*i].name()).collect::<Vec<_>>()), replay_json(bs[items[n].0].0, &items[n].1, &ctx.alpha))) {
         return 0;
@@ -481,7 +527,7 @@ pub fn run(args: &Args) -> i32 {
     report.set("alphabet_size", json!(ctx.alpha.len()));
     report.set("base_states", json!(bs.iter().map(|b| b.0).collect::<Vec<_>>()));
     report.set("exhaustive", json!(true));
-    report.set("rule", json!("every command sequence of <= depth over the property's alphabet from its base states, replayed from scratch on a fresh real DbMemory (no copies, so in-memory state such as the undo stack is faithful) and on the reference model RefDb; acceptance and the learned ids (sign, freshness) are compared at every command, the property's observation clauses after the last command of every sequence. states = distinct model states reached."));
+    report.set("rule", json!("every command sequence of <= depth over the property's alphabet from its base states, replayed from scratch on a fresh real DbMemory (no copies, so in-memory state such as the undo stack is faithful) and on the reference model RefDb; acceptance and the learned ids (sign, freshness) are compared at every command, the property's observation clauses after the last command of every sequence, and once more on a new database loaded from a backup of that state. states = distinct model states reached."));
     report.assume("the reference model follows the property statement and docs/03.references/01.queries.md; ids are learned from results; the order of an element's remaining properties after a key removal is not constrained");
     report.finish()
 }
